@@ -6,7 +6,7 @@ import ast
 from typing import List, Optional, Set
 
 from ..cfg import CFG
-from ..model import Func, own_nodes, unparse
+from ..model import Func, own_nodes, own_nodes_ordered, unparse
 from ..util import assignments_to, loop_binding, names_in
 
 EXPLANATION = (
@@ -89,6 +89,13 @@ def rule_y2(ctx, funcs: List[Func]) -> None:
                     srcs |= {x.id for arg in a.value.args for x in ast.walk(arg) if isinstance(x, ast.Name)}
             if not srcs:
                 continue
+            # objects built from the same source before the loop describe the same
+            # molecule: rewriting them makes the group list stale just the same
+            for _ in range(2):
+                for a in own_nodes(f.node):
+                    if isinstance(a, ast.Assign) and len(a.targets) == 1 and isinstance(a.targets[0], ast.Name) and a.lineno < loop.lineno and names_in(a.value) & srcs:
+                        if not any(a is x for x in ast.walk(loop)):
+                            srcs.add(a.targets[0].id)
             n += 1
             tnames = {x.id for x in ast.walk(loop.target) if isinstance(x, ast.Name)}
             # names derived from the loop element inside the body
@@ -100,19 +107,48 @@ def rule_y2(ctx, funcs: List[Func]) -> None:
                             if isinstance(t, ast.Name):
                                 derived.add(t.id)
             stale = None
+            # def-use inside the loop body: name -> names its assigned values mention
+            deps = {}
+            sites = {}
             for a in ast.walk(loop):
                 if a is loop:
                     continue
-                if isinstance(a, ast.Assign) and len(a.targets) == 1 and isinstance(a.targets[0], ast.Name) and a.targets[0].id in srcs:
-                    s = a.targets[0].id
-                    if names_in(a.value) & derived:
-                        # can another iteration follow this rebinding?
-                        if cfg is None:
-                            cfg = CFG(f.node)
+                if isinstance(a, ast.Assign) and len(a.targets) == 1 and isinstance(a.targets[0], ast.Name):
+                    deps.setdefault(a.targets[0].id, set()).update(names_in(a.value))
+                    sites.setdefault(a.targets[0].id, []).append(a)
+
+            def reaches(src, dst, seen=None):
+                seen = seen or set()
+                for d in deps.get(src, ()):
+                    if d == dst:
+                        return True
+                    if d not in seen:
+                        seen.add(d)
+                        if reaches(d, dst, seen):
+                            return True
+                return False
+
+            def closure(v):
+                out, work = set(), [v]
+                while work:
+                    x = work.pop()
+                    for d in deps.get(x, ()):
+                        if d not in out:
+                            out.add(d)
+                            work.append(d)
+                return out
+
+            for v in sorted(srcs):
+                if v in deps and reaches(v, v) and closure(v) & derived:
+                    # the molecule is rewritten from itself with indices of the old query;
+                    # can another iteration follow?
+                    if cfg is None:
+                        cfg = CFG(f.node)
+                    header = cfg.node_of(loop)
+                    for a in sites[v]:
                         start = cfg.node_of(a)
-                        header = cfg.node_of(loop)
                         if start is not None and header is not None and header in cfg.reachable_from(start):
-                            stale = (a, s)
+                            stale = (a, v)
             ctx.instance("C20-Y2", "%s: loop over %s (computed from %s)" % (f.name, it_txt, sorted(srcs)), f.loc(loop), ok=stale is None)
             if stale is not None:
                 a, s = stale
@@ -173,6 +209,90 @@ def rule_y3(ctx, funcs: List[Func]) -> None:
             )
 
 
+def rule_y4(ctx, funcs: List[Func]) -> None:
+    """standardize_enol removes elements from the index list it is given: every caller
+    must hand over a fresh list, otherwise the caller's group table is corrupted."""
+    ctx.rule("C20-Y4", "functions that mutate a list argument are only called with a fresh copy", 0)
+    prog = ctx.prog
+    MUT = ("remove", "pop", "append", "extend", "insert", "clear", "sort", "reverse")
+    n = 0
+    for f in funcs:
+        params = f.params
+        mutated = set()
+        rebound_first = set()
+        for a in own_nodes_ordered(f.node):
+            if isinstance(a, ast.Assign) and len(a.targets) == 1 and isinstance(a.targets[0], ast.Name) and a.targets[0].id in params and a.targets[0].id not in mutated:
+                rebound_first.add(a.targets[0].id)
+            if isinstance(a, ast.Call) and isinstance(a.func, ast.Attribute) and a.func.attr in MUT and isinstance(a.func.value, ast.Name) and a.func.value.id in params and a.func.value.id not in rebound_first:
+                mutated.add(a.func.value.id)
+        for p in sorted(mutated):
+            pos = (params[1:] if (f.cls is not None and not f.is_static) else params).index(p)
+            for g in prog.package_functions():
+                for c in [x for x in own_nodes(g.node) if isinstance(x, ast.Call)]:
+                    tgt = ctx.res.resolve_callee(c, g)
+                    if not (tgt and tgt[0] == "func" and tgt[1] == f.qualname):
+                        continue
+                    arg = c.args[pos] if pos < len(c.args) else next((k.value for k in c.keywords if k.arg == p), None)
+                    if arg is None:
+                        continue
+                    n += 1
+                    fresh = (isinstance(arg, ast.Call) and unparse(arg.func) in ("list", "sorted", "copy.copy", "copy.deepcopy")) or (isinstance(arg, ast.Subscript) and isinstance(arg.slice, ast.Slice)) or isinstance(arg, (ast.List, ast.ListComp)) or (isinstance(arg, ast.Call) and isinstance(arg.func, ast.Attribute) and arg.func.attr == "copy")
+                    ctx.instance("C20-Y4", "%s mutates %s; %s passes %s" % (f.name, p, g.name, unparse(arg)[:40]), g.loc(c), ok=fresh)
+                    if not fresh:
+                        ctx.finding("C20-Y4", "%s.%s:shared-list-argument:%s" % (g.qualname.split(".")[-2], g.name, f.name), g.loc(c), "%s removes elements from its argument %r, and %s passes %s without copying it: the caller's group table (or a cached query result) is edited in place, so a later call with the same molecule sees a damaged group" % (f.name, p, g.name, unparse(arg)[:40]))
+    # calls through a dispatch table {name: self.<method>} stored on the instance
+    cls = funcs[0].cls if funcs else None
+    if cls is not None:
+        tables = {}
+        for m in cls.methods.values():
+            for a in own_nodes(m.node):
+                if isinstance(a, ast.Assign) and isinstance(a.value, ast.Dict):
+                    meths = [v.attr for v in a.value.values if isinstance(v, ast.Attribute) and isinstance(v.value, ast.Name) and v.attr in cls.methods]
+                    for t in a.targets:
+                        if isinstance(t, ast.Attribute) and meths:
+                            tables[t.attr] = meths
+        mut_by_name = {}
+        for f in funcs:
+            rebound, mutd = set(), set()
+            for a in own_nodes_ordered(f.node):
+                if isinstance(a, ast.Assign) and len(a.targets) == 1 and isinstance(a.targets[0], ast.Name) and a.targets[0].id in f.params and a.targets[0].id not in mutd:
+                    rebound.add(a.targets[0].id)
+                if isinstance(a, ast.Call) and isinstance(a.func, ast.Attribute) and a.func.attr in MUT and isinstance(a.func.value, ast.Name) and a.func.value.id in f.params and a.func.value.id not in rebound:
+                    mutd.add(a.func.value.id)
+            if mutd:
+                mut_by_name[f.name] = (f, mutd)
+        for g in cls.methods.values():
+            via = {}
+            for a in own_nodes(g.node):
+                if isinstance(a, ast.Assign) and len(a.targets) == 1 and isinstance(a.targets[0], ast.Name):
+                    v = a.value
+                    tab = None
+                    if isinstance(v, ast.Call) and isinstance(v.func, ast.Attribute) and v.func.attr == "get" and isinstance(v.func.value, ast.Attribute):
+                        tab = v.func.value.attr
+                    elif isinstance(v, ast.Subscript) and isinstance(v.value, ast.Attribute):
+                        tab = v.value.attr
+                    if tab in tables:
+                        via[a.targets[0].id] = tables[tab]
+            for c in [x for x in own_nodes(g.node) if isinstance(x, ast.Call) and isinstance(x.func, ast.Name) and x.func.id in via]:
+                for mname in via[c.func.id]:
+                    if mname not in mut_by_name:
+                        continue
+                    f, mutd = mut_by_name[mname]
+                    fparams = f.params[1:] if (f.cls is not None and not f.is_static) else f.params
+                    for p in sorted(mutd):
+                        pos = fparams.index(p)
+                        arg = c.args[pos] if pos < len(c.args) else None
+                        if arg is None:
+                            continue
+                        n += 1
+                        fresh = (isinstance(arg, ast.Call) and unparse(arg.func) in ("list", "sorted", "copy.copy", "copy.deepcopy")) or (isinstance(arg, ast.Subscript) and isinstance(arg.slice, ast.Slice)) or isinstance(arg, (ast.List, ast.ListComp))
+                        ctx.instance("C20-Y4", "%s mutates %s; %s calls it through a dispatch table with %s" % (f.name, p, g.name, unparse(arg)[:40]), g.loc(c), ok=fresh)
+                        if not fresh:
+                            ctx.finding("C20-Y4", "%s.%s:shared-list-argument:%s" % (g.qualname.split(".")[-2], g.name, f.name), g.loc(c), "%s removes elements from its argument %r, and %s hands it %s (through a dispatch table) without copying: the group table - here a cached query result - is edited in place, so standardising the same SMILES again skips the rewrite" % (f.name, p, g.name, unparse(arg)[:40]))
+    if n == 0:
+        ctx.note("C20-Y4: no function of the standardiser mutates a list argument on this tree")
+
+
 def check(ctx) -> None:
     prog = ctx.prog
     cls = prog.cls(CLS)
@@ -183,7 +303,9 @@ def check(ctx) -> None:
         rule_y1(ctx, funcs + extra)
         rule_y2(ctx, funcs)
         rule_y3(ctx, funcs + extra)
+        rule_y4(ctx, funcs)
     else:
         rule_y1(ctx, funcs)
         rule_y2(ctx, funcs)
         rule_y3(ctx, funcs)
+        rule_y4(ctx, funcs)
